@@ -30,6 +30,11 @@ extern "C"
         struct event accumulator_reset_event;
         struct thread thread;
         uint8_t stream_id;
+
+        /// Called by the filter thread when it exits, after everything it
+        /// emits has been committed to `out`: signals the sink to stop.
+        /// May be NULL.
+        void (*sig_stop_sink)(const struct video_filter_s*);
     };
 
     enum DeviceStatusCode video_filter_init(struct video_filter_s* self,
